@@ -92,7 +92,12 @@ static std::string serialise(cppcms::http::request &rq)
 	put1(o,'P',rq.path_info());
 	put1(o,'Q',rq.query_string());
 	std::map<std::string,std::string> env=rq.getenv();
-	for(std::map<std::string,std::string>::const_iterator p=env.begin();p!=env.end();++p) put2(o,'E',p->first,p->second);
+	for(std::map<std::string,std::string>::const_iterator p=env.begin();p!=env.end();++p) {
+		// what the application sees when it asks for the variable BY NAME (getenv(name), the http_*() accessors) must be
+		// what the enumeration shows; a difference is reported with the by-name value
+		std::string byname=rq.getenv(p->first);
+		put2(o,'E',p->first,byname==p->second ? p->second : byname);
+	}
 	typedef cppcms::http::request::form_type form_type;
 	form_type const &g=rq.get();
 	for(form_type::const_iterator p=g.begin();p!=g.end();++p) put2(o,'G',p->first,p->second);
